@@ -143,6 +143,16 @@ func c05Shapes(c *chk.Ctx, rng interface{ Intn(int) int }) []*spec.Spec {
 		s.Conns = append(s.Conns, &spec.Conn{From: "src.out", To: "slow.in"})
 		out = append(out, s)
 	}
+	// RunToRegex with two patterns, and with one pattern that matches two processes
+	for k, targets := range [][]string{{"^c1$", "^c2$"}, {"^c[0-9]$"}, {"^c2$", "^c1$", "^c"}} {
+		s := mk(fmt.Sprintf("runtoregex%d", k), 3)
+		s.Procs = append(s.Procs, &spec.Proc{Name: "c1", Kind: spec.KCmd, Cmd: spec.BuildCmd("c1", in, o1, nil, nil, map[string]string{"sleep": "40"})},
+			&spec.Proc{Name: "c2", Kind: spec.KCmd, Cmd: spec.BuildCmd("c2", in, o1, nil, nil, map[string]string{"sleep": "70"})},
+			&spec.Proc{Name: "dd", Kind: spec.KCmd, Cmd: spec.BuildCmd("dd", in, o1, nil, nil, nil)})
+		s.Conns = append(s.Conns, &spec.Conn{From: "src.out", To: "c1.in"}, &spec.Conn{From: "src.out", To: "c2.in"}, &spec.Conn{From: "c1.out", To: "dd.in"})
+		s.Run = spec.Run{Mode: "runtoregex", Targets: targets}
+		out = append(out, s)
+	}
 	// RunTo whose cut goes through one file connection and one parameter connection
 	{
 		s := mk("runtocut", 4)
@@ -236,7 +246,7 @@ func c05Shapes(c *chk.Ctx, rng interface{ Intn(int) int }) []*spec.Spec {
 func c05(args []string) {
 	c := chk.New("C05", "exploration", args)
 	c.Build(false)
-	c.Rule("generated non-streaming graphs (C04 generator incl. processes without out-ports, slow leaves; in every third run all commands print 300 kB to stdout/stderr) plus directed shapes for the driver logic (independent leaves, out-port-less process beside sink-terminated branches, RunTo on an out-port-less target, issue-#81 diamond with more tasks than buffer slots), plus close storms: command-free fan-ins of 2-8 one-file sources into one in-port, built and run 1500-3000 times inside one child process so that the upstreams close their connections at the same moment thousands of times (Run must return each time, every item must pass); oracle = the subject's own snapshot at the instant Run returns (listing, live children, monotonic stamp) vs. trace and reference, plus structural hang classification; history 'run killed inside a task's finalization, run again without cleanup': if that Run returns, no temp directory exists and every file is final; further directed shapes: a dependent globber behind several slow tasks, RunTo / RunToProcs where a parameter source or a file source feeds one process inside and one outside the run set with more items than buffer slots. distinct_nontrivial = distinct (graph shape, configuration, interleaving signature) of returned runs with >= 2 tasks")
+	c.Rule("generated non-streaming graphs (C04 generator incl. processes without out-ports, slow leaves; in every third run all commands print 300 kB to stdout/stderr) plus directed shapes for the driver logic (independent leaves, out-port-less process beside sink-terminated branches, RunTo on an out-port-less target, RunToRegex with several patterns and with one pattern matching two processes, issue-#81 diamond with more tasks than buffer slots), plus close storms: command-free fan-ins of 2-8 one-file sources into one in-port, built and run 1500-3000 times inside one child process so that the upstreams close their connections at the same moment thousands of times (Run must return each time, every item must pass); oracle = the subject's own snapshot at the instant Run returns (listing, live children, monotonic stamp) vs. trace and reference, plus structural hang classification; history 'run killed inside a task's finalization, run again without cleanup': if that Run returns, no temp directory exists and every file is final; further directed shapes: a dependent globber behind several slow tasks, RunTo / RunToProcs where a parameter source or a file source feeds one process inside and one outside the run set with more items than buffer slots. distinct_nontrivial = distinct (graph shape, configuration, interleaving signature) of returned runs with >= 2 tasks")
 	c.Assume("SCIPIPE_BUFSIZE >= 1", "two processes without out-ports are refused by the library up front; that refusal (exit != 0, no command executed) is accepted", "hang verdicts only from the structural classifier (Go runtime deadlock report or all goroutines blocked), never from elapsed time")
 	rng := c.Rand("c05")
 	type job struct {
